@@ -184,6 +184,12 @@ def core_variants():
     add('nr_header', 'nr', NOREJ + ('sect3',), ['header-file="lex.h"', 'yylineno'], header=True)
     add('r_header', 'r', NOREJ + ('sect3',), ['header-file="lex.h"', 'bison-bridge', 'bison-locations'], header=True)
     add('nr_header_prefix', 'nr', NOREJ, ['header-file="lex.h"', 'prefix="foo"'], header=True)
+    # D33: features the manual lists as omitted by the alternate back ends must be refused (one variant per feature, quick tier)
+    add('c99_bison', 'c99', PLAIN, ['bison-bridge'], note='D33')
+    add('c99_locations', 'c99', PLAIN, ['bison-bridge', 'bison-locations'], note='D33')
+    add('c99_header', 'c99', PLAIN, ['header-file="lex.h"'], header=True, note='D33')
+    add('c99_tables', 'c99', PLAIN, ['tables-file="lex.tables"'], tables=True, note='D33')
+    add('c99_verify', 'c99', PLAIN, ['tables-file="lex.tables"', 'tables-verify'], tables=True, note='D33')
     add('r_extra', 'r', PLAIN, ['extra-type="struct verif_extra *"'], note='D8')
     add('c99_extra', 'c99', PLAIN, ['extra-type="struct verif_extra *"'])
     add('cxx_yyclass', 'cxx', PLAIN, ['yyclass="VerifLexer"'])
